@@ -157,7 +157,10 @@ func (info *Info) Encode(windowsEncodingID uint16) []byte {
 	b := newNameBuilder()
 
 	// platform ID 1 (Macintosh)
-	for languageID, tag := range appleBCP {
+	// The language IDs are visited in increasing order, so that the layout of
+	// the string storage does not depend on the map iteration order.
+	for _, languageID := range sortedLanguageIDs(appleBCP) {
+		tag := appleBCP[languageID]
 		t := info.Mac[tag]
 		if t == nil {
 			continue
@@ -180,7 +183,8 @@ func (info *Info) Encode(windowsEncodingID uint16) []byte {
 	// Platform ID 3 (Windows).
 	// Encoding IDs for platform 3 'name' entries must match the encoding IDs
 	// used for platform 3 subtables in the 'cmap' table.
-	for languageID, tag := range msBCP {
+	for _, languageID := range sortedLanguageIDs(msBCP) {
+		tag := msBCP[languageID]
 		t := info.Windows[tag]
 		if t == nil {
 			continue
@@ -242,6 +246,15 @@ func (info *Info) Encode(windowsEncodingID uint16) []byte {
 	copy(res[startOfStrings:], b.data)
 
 	return res
+}
+
+func sortedLanguageIDs(m map[uint16]string) []uint16 {
+	ids := make([]uint16, 0, len(m))
+	for id := range m {
+		ids = append(ids, id)
+	}
+	sort.Slice(ids, func(i, j int) bool { return ids[i] < ids[j] })
+	return ids
 }
 
 type nameBuilder struct {
